@@ -281,6 +281,22 @@ def c17(tier_):
     for _ in range(2 if tier_ == 'quick' else 6):
         cx = replay.Concrete(rng, apij)
         execs += replay.build_executions(edges, walks, cx, 'exc', sweep_every=40, rng=rng, apis=('cxx', 'c'))
+    if tier_ == 'quick':
+        # two handles (reduced alphabet): selections made through one interface and undone through the other
+        s2, t2, edges2, _ = replay.explore(replay.mc_cfg(('d',), ('h1', 'h2'), lite=True), 'exc')
+        walks2, nu2 = replay.cover_walks(edges2)
+        execs += replay.build_executions(edges2, walks2, replay.Concrete(rng, apij), 'exc', sweep_every=40, rng=rng, apis=('cxx', 'c'))
+        s += s2; t += t2; nu += nu2
+    # every interleaving of the two interfaces over "make H current, move the selection to G, select H again"
+    for a1 in ('c', 'cxx'):
+        for a2 in ('c', 'cxx'):
+            for a3 in ('c', 'cxx'):
+                for first in ('init', 'select'):
+                    S = [['init', 'd', 'cxx', 'G', 'euler_2d'], ['init', 'd', 'cxx', 'H', 'euler_1d'], ['setp', 'd', 'cxx', 'u_0', hexf(7.25)]]
+                    S.append(['init', 'd', a1, 'H', 'euler_1d'] if first == 'init' else ['select', 'd', a1, 'H'])
+                    S += [['setp', 'd', a1, 'u_0', hexf(1.5)], ['select', 'd', a2, 'G'], ['name', 'd', a3], ['select', 'd', a3, 'H'],
+                          ['name', 'd', 'cxx'], ['name', 'd', 'c'], ['getp', 'd', a3, 'u_0'], ['dim', 'd', 'c'], ['list', 'd', a2]]
+                    execs.append(Execution(S, variant='exc', label='interleave:%s%s%s' % (a1, a2, a3)))
     for sol in NONFIX:
         for _ in range(1 if tier_ == 'quick' else 6):
             execs.append(gen.gen_purity(rng, sol, apis=('cxx', 'c'), nev=8, noise=10)[0])
@@ -565,6 +581,9 @@ def c19(tier_):
     base = replay.build_executions(edges, walks, cx, 'exc', sweep_every=30, rng=rng)
     base += [gen.gen_registry_random(rng, steps=150) for _ in range(4 if tier_ == 'quick' else 30)]
     base += [gen.gen_init_orders(rng) for _ in range(2 if tier_ == 'quick' else 12)]
+    # vector parameters through both interfaces, failing lookups right after successful ones (a stale length or buffer in
+    # the C layer writes beyond the caller's array)
+    base += [gen.gen_param_store(rng, sol, 'd', apis=('cxx', 'c'), steps=60) for sol in NONFIX if CAT[sol]['vecs'] for _ in range(2 if tier_ == 'quick' else 8)]
     execs, grp = [], 0
     # (a) the driver's own allocator: fresh memory filled with 0x00 / 0xCD / 0xFF, freed memory poisoned; the hook
     #     counter is bound to the specification heap (HeapExact), identical re-inits must not grow the heap
